@@ -58,7 +58,10 @@ META = dict(
     technique='def-use (dependence) analysis of prior bounds into the optimiser '
               'call and of the prior term into the returned residual; typestate of '
               'per-fit attributes (created / deleted sets and order); key-table '
-              'agreement of the result serialiser; effect analysis',
+              'agreement of the result serialiser; effect analysis'
+              '; must-store / partition analysis of the result payload through local '
+              'aliases, pack/unpack pairing by effect, restored-name coverage from th'
+              "e strategies' result construction sites",
     level_text='Static: L1-L6 are decided for every model / data (they are facts '
                'about which values reach which call and which attributes exist '
                'when).  Optimiser dynamics (fixed point, monotone improvement, '
